@@ -2,7 +2,7 @@
 //! serving repository; the harness owns every key, so equivocation is a legal move).
 
 use radicle::git::Oid;
-use radicle::storage::WriteRepository;
+use radicle::storage::{ReadRepository, WriteRepository};
 
 use super::{ns_ref, World};
 
@@ -53,7 +53,8 @@ impl<'a> World<'a> {
         let nid = self.actors[a].nid;
         let Some(cur) = self.current_sigrefs(a) else { return };
         // kinds; each is a distinct byzantine move
-        let kinds: [&'static str; 12] = [
+        let kinds: [&'static str; 13] = [
+            "unsigned-rad-id",
             "extra-unsigned-ref",
             "signed-ref-moved",
             "signed-ref-deleted",
@@ -67,11 +68,31 @@ impl<'a> World<'a> {
             "sigrefs-diverged",
             "non-canonical-refs-blob",
         ];
-        let kind = kinds[self.ch.pick_usize(kinds.len())];
+        let kind = if self.own == "C02" && self.ch.pick(2) == 0 {
+            // the threshold check wants offers that make one delegate invalid without failing the whole fetch
+            *self.ch.choose(&["sigrefs-deleted", "unsigned-rad-id"])
+        } else {
+            kinds[self.ch.pick_usize(kinds.len())]
+        };
         let repo = self.server_repo();
         let raw = &repo.backend;
         let any_commit = self.commits[self.ch.pick_usize(self.commits.len())];
         let applied = match kind {
+            "unsigned-rad-id" => {
+                // a special ref the client always asks for, not covered by the signed refs (or moved away
+                // from what they say)
+                let r = ns_ref(&nid, "refs/rad/id");
+                let old = raw.refname_to_id(&r).ok();
+                let target = match (old, repo.identity_head()) {
+                    (Some(_), _) => Some(*any_commit),
+                    (None, Ok(h)) => Some(*h),
+                    _ => None,
+                };
+                match target {
+                    Some(t) if Some(t) != old => raw.reference(&r, t, true, "tamper").is_ok(),
+                    _ => false,
+                }
+            }
             "extra-unsigned-ref" => {
                 raw.reference(&ns_ref(&nid, "refs/heads/sneaky"), *any_commit, true, "tamper").is_ok()
             }
